@@ -185,6 +185,10 @@ func c06Scenario(files []c06File, exps []int, volNames []string, shuffle bool) *
 	if shuffle {
 		index = append(index, refWrite(other, []refPkt{{"PAR 2.0\x00Main", []byte("foreign set!")}}, -1, 0)...)
 		index = append(index, refWrite(setID, []refPkt{{"EXT 1.0\x00Unknown", []byte("abcd")}}, -1, 0)...)
+		// packets without a body (length == header size) are conformant: the
+		// length only has to be a multiple of 4 that includes the header
+		index = append(index, refWrite(setID, []refPkt{{"EXT 1.0\x00Empty", nil}}, -1, 0)...)
+		index = append(index, refWrite(other, []refPkt{{"EXT 1.0\x00Empty", nil}}, -1, 0)...)
 	}
 	index = append(index, refWrite(setID, idx[1:], -1, 0)...)
 	s.fs.put(scnIndex, index)
